@@ -32,4 +32,39 @@ PROPS = {
         "rule": "Per result: (a) a map oracle-truth-table -> first pointer seen: a result whose function is known must be pointer-equal (== and builder.eq) to the representative, and its negation must be the representative's negation; (b) every newly reachable node: level strictly increases along both edges under builder.order(), low != high, high edge neither complemented nor constant false; (c) table membership: get_or_insert of a structural copy of every known node returns the identical address, re-checked for all known nodes every 32 ops and at the end (i.e. after growth). Regime table drives the re-exported BackedRobinhoodTable directly with adversarial hashes (equal, adjacent, wrap-around, equal low bits) from 2..16 initial slots against a HashMap model: same key => same address, no aliasing, num_nodes == |model|, iter() yields each element once, get_by_hash finds every stored hash. evaluations = distinct-function insertions + table histories; a case is non-trivial when the function is neither constant nor a literal; distinct = distinct (function, order) pairs plus distinct table histories.",
         "assumptions": ASSUME_COMMON,
     },
+    "C03": {
+        "profiles": {"quick": ["mon"], "thorough": ["mon", "monrel"]},
+        "scale": {"quick": 1, "thorough": 30},
+        "floors": {
+            "quick": {"ops": 60000, "drift_rechecks": 10000, "histories_compressed": 1000, "histories_uncompressed": 500,
+                      "op_compose": 500, "op_exists": 500, "op_condition": 1000, "op_ite": 1000, "unique_table_grows": 500},
+            "thorough": {"ops": 1500000},
+        },
+        "rule": "Every SDD builder call (var, negate, and, or, xor, iff, ite, condition, exists, compose) is one evaluation: the returned SddPtr is evaluated structurally (OR over prime&sub, BinarySDD as ite(label,high,low), complement flags) into a truth table and compared with the operation's definition on the oracle tables of the arguments. Regimes: allvtrees = every vtree on 4 leaves (5 shapes x 24 labellings) and on 3 leaves, each with compression on and off; rand = short histories on random right-linear / left-linear / balanced / random-shape vtrees with random leaf labelling, <=6 variables, 2..1024-slot unique tables; uncompressed = compression off, <=5 variables, <=16 ops (structural Ord on SddPtr is exponential, see DESIGN); long = 300-700-op histories. Every 16 ops all earlier results are re-evaluated. Non-trivial = expected function neither constant nor literal; distinct = distinct (operation, expected function, vtree, compression) tuples.",
+        "exhaustive_note": "all vtree shapes x leaf labellings on 3 and 4 leaves are enumerated (each with one random history per compression mode); operation histories themselves are sampled",
+        "assumptions": ASSUME_COMMON,
+    },
+    "C04": {
+        "profiles": {"quick": ["mon"], "thorough": ["mon", "monrel"]},
+        "scale": {"quick": 1, "thorough": 30},
+        "floors": {
+            "quick": {"wf_results": 50000, "nodes_wf_checked": 10000, "canon_repeat_functions": 20000, "histories_with_growth": 500},
+            "thorough": {"wf_results": 1000000},
+        },
+        "sanitizers": ["miri_sdd"],
+        "rule": "For every decision node newly reachable from any result of the compressing builder the oracle computes the truth table of each prime and sub and asserts: primes non-false, pairwise disjoint, union true; every variable a prime depends on lies under the left child of the node's vtree position and every variable a sub depends on under the right child; subs pairwise distinct; no single-element node and no {(p,T),(!p,F)} node; and canonicity through a map truth table -> pointer over results AND every reachable node in both polarities (same function => same pointer, builder.eq agrees). Unique tables start at 2..64 slots so both SDD tables grow repeatedly. evaluations = results with a not-yet-seen function; non-trivial = neither constant nor literal; distinct = distinct (function, vtree) pairs. The library's own is_canonical() is recorded as a cross-check only.",
+        "exhaustive_note": "all 120 vtrees on 4 leaves are enumerated (one 70-op history each); histories are sampled",
+        "assumptions": ASSUME_COMMON,
+    },
+    "C05": {
+        "profiles": {"quick": ["mon"], "thorough": ["mon", "monrel"]},
+        "scale": {"quick": 1, "thorough": 40},
+        "floors": {
+            "quick": {"bdd_compile_cnf": 1000, "bdd_compile_with_assignments": 3000, "bdd_compile_plan": 800, "sdd_compile_cnf": 700,
+                      "sdd_compile_plan": 600, "bdd_compile_expr": 800, "sdd_compile_expr": 800, "bdd_compile_random_plan": 500},
+            "thorough": {"bdd_compile_cnf": 40000},
+        },
+        "rule": "One evaluation = one compilation compared with the harness's own evaluation of the input on all 2^n assignments (n <= 10): BDD compile_cnf under a random order permutation and either cache; compile_cnf_with_assignments(c,m) for random partial assignments m of every size (must have the restricted table AND be pointer-equal to condition_model(compile_cnf(c),m)); compile_plan(BottomUpPlan::from_dtree(DTree::from_cnf(c, elim))) for elim in {linear, min-fill, FORCE, random} (right table AND pointer-equal to compile_cnf); SDD compile_cnf / compile_plan under right-linear, left-linear, balanced, random and dtree-derived vtrees; compile_logical_expr for random expression trees over all 7 constructors (depth <= 8) on BDD and SDD; random plans with constants. CNFs include the empty formula, empty clauses, units, repeated and complementary literals, unused indices, up to 200 clauses. Non-trivial = the input's function is neither constant nor a literal; distinct = distinct (function, route/configuration) pairs. Cnf::eval is used only as a cross-check of the oracle (disagreements are counted in evidence).",
+        "assumptions": ASSUME_COMMON + ["S9: FORCE is not applied to CNFs with an empty clause and no dtree is built for the empty formula (outside the listed domains)"],
+    },
 }
